@@ -201,7 +201,7 @@ Proof.
     apply (X (s_id x)). left; reflexivity. }
   constructor; auto.
   - pose proof (i_wcnt _ _ IB') as X1. pose proof (i_wbytes _ _ IB') as X2. rewrite Q0 in X1, X2. simpl in X1, X2. repeat split; auto.
-  - repeat apply Forall_app; repeat split; auto. apply outcomes_stop_out; auto.
+  - apply Forall_app; split; [exact Q1|]. apply Forall_app; split; [exact Q2|]. apply outcomes_stop_out; auto.
 Qed.
 
 Theorem dispatch_iff : forall c s e s' out sids, Inv s -> step c s e = (s', out) ->
@@ -235,14 +235,14 @@ Proof.
     inv C. simpl in A. inv A. apply QUIET. repeat constructor.
   - (* ECancel *)
     destruct (NS ltac:(intros ? X; discriminate X)) as (s1 & o1 & ep & o2 & C & A & ->). cbn [core] in C.
-    destruct (cancel_send s sid) as [s2 o3] eqn:E. inv C. simpl in A. inv A. rewrite app_nil_r.
+    destruct (cancel_send s sid) as [s2 o3] eqn:E. inv C. simpl in A. inv A. rewrite app_nil_r in *.
     apply QUIET. apply cancel_send_spec in E as (OO & _). auto with prod.
   - (* ETick *)
     destruct (NS ltac:(intros ? X; discriminate X)) as (s1 & o1 & ep & o2 & C & A & ->). cbn [core] in C.
     inv C. destruct (looper s1) eqn:Lp; simpl in A |- *.
     + rewrite (try_disp_iff _ _ _ _ sids A). rewrite can_dispatch_iff. split.
       * intros ((Q & P & St) & ->). repeat split; auto. intros X. apply ids_nil in X. auto.
-      * intros (St & Q & P & _ & ->). repeat split; auto. intros X. subst. auto.
+      * intros (St & Q & P & _ & ->). repeat split; auto. intros X. rewrite X in Q. auto.
     + inv A. split; [intros []|intros (_ & _ & _ & X & _); discriminate].
   - (* EMetaSet *)
     destruct (NS ltac:(intros ? X; discriminate X)) as (s1 & o1 & ep & o2 & C & A & ->). cbn [core] in C.
@@ -252,7 +252,7 @@ Proof.
     inv C. simpl in A. inv A. apply QUIET. constructor.
   - (* EStop *)
     apply stop_step_spec in H; auto. destruct H as [_ _ _ _ Q]. rewrite Forall_forall in Q.
-    split; [intros X; apply Q in X; exact X|intros (_ & _ & [])].
+    split; [intros X; apply Q in X; destruct X|intros (_ & _ & [])].
 Qed.
 
 (* ------------------------------------------------------------------ no due batch is ever left waiting *)
@@ -371,8 +371,8 @@ Proof.
     destruct (try_send_batch c s) as [s2 o2] eqn:E. inv H.
     apply try_send_batch_spec in E as [[Rd D]|(Rd & -> & ->)].
     + apply dispatch_spec in D as (Q & _). exact Q.
-    + unfold ready in Rd. destruct (queue s') eqn:Q; auto. exfalso.
-      assert (X : can_dispatch s' = true) by (apply can_dispatch_iff; rewrite Q; repeat split; auto; discriminate). congruence.
+    + unfold ready in Rd. destruct (queue s) eqn:Q; auto. exfalso.
+      assert (X : can_dispatch s = true) by (apply can_dispatch_iff; rewrite Q; repeat split; auto; discriminate). congruence.
   - intros Q. apply (dispatch_iff c s ETick s' out (ids (queue s)) I H). unfold dispatch_cond. repeat split; auto.
     intros X. apply ids_nil in X. auto.
 Qed.
@@ -449,7 +449,7 @@ Proof.
     { destruct (c_acks c =? 0); [apply deliver_xo in E0 as [_ E']; auto|inv E0; auto with prod]. }
     destruct (process_resps s0 pls rs) as [[s2 o2] f2] eqn:E. apply process_resps_xo in E as [_ E'].
     destruct (check_retry c s2 pls _) as [[s3 o3] d3] eqn:E3. inv H.
-    repeat apply wire_in_app; try (apply wire_in_outcomes; auto). eapply check_retry_wire; eauto.
+    apply wire_in_app; [apply wire_in_outcomes; auto|]. apply wire_in_app; [apply wire_in_outcomes; auto|]. eapply check_retry_wire; eauto.
   - eapply check_retry_wire; eauto.
   - destruct (deliver s (all_sends pls) _) eqn:E; inv H. apply wire_in_outcomes. eapply deliver_xo; eauto.
 Qed.
@@ -525,8 +525,8 @@ Proof.
   - unfold finish in A. destruct (finish0 s1) as [s3 o3] eqn:F. destruct (check_send_batch c s3) as [s4 o4] eqn:E. inv A.
     pose proof (i_b _ W) as IB.
     destruct (finish0_inv _ _ _ _ IB F) as (W3 & -> & [K1 _ _ _ _ _] & _ & P3).
-    left. apply Ck in E as [[X Y]|[-> ->]]; auto; rewrite K1 in *.
-    + split; auto. apply wire_in_app; auto. apply wire_in_quiet; repeat constructor.
+    left. apply Ck in E as [[X Y]|[-> ->]]; auto.
+    + rewrite K1 in X, Y. split; auto. apply wire_in_app; auto. apply wire_in_quiet; repeat constructor.
     + split; [apply wire_in_quiet; repeat constructor|]. unfold pool. rewrite P3, K1. simpl. apply incl_refl.
   - eauto.
   - eauto.
@@ -551,8 +551,8 @@ Proof.
         simpl in A. unfold finish in A. destruct (finish0 s1) as [s3 o3] eqn:F. destruct (check_send_batch c s3) as [s4 o4] eqn:E. inv A.
         destruct (finish0_inv _ _ _ _ I2 F) as (W3 & -> & [J1 _ _ _ _ _] & _ & P3).
         assert (A' : apply_epi c s3 Check = (s', o4)) by exact E.
-        apply epi_wire in A' as [[X Y]|[-> ->]]; auto; rewrite J1, K1 in *.
-        * split; [eapply incl_tran; [exact Y|apply incl_appr, incl_refl]|].
+        apply epi_wire in A' as [[X Y]|[-> ->]]; auto.
+        * rewrite J1, K1 in X, Y. split; [eapply incl_tran; [exact Y|apply incl_appr, incl_refl]|].
           apply wire_in_app; [eapply wire_in_mono; [|exact WI]; apply incl_appl, incl_refl|].
           apply wire_in_app; [apply wire_in_quiet; repeat constructor|eapply wire_in_mono; [|exact X]; apply incl_appr, incl_refl].
         * split; [unfold pool; rewrite P3, J1, K1; simpl; apply incl_appr, incl_refl|].
